@@ -36,8 +36,13 @@ def lane_words(idb, data):
 
 
 class Link:
-    def __init__(self, rng, link_id, layer, stave, fmt=2, version=7, stave_level=False):
+    def __init__(self, rng, link_id, layer, stave, fmt=2, version=7, stave_level=False, calib=False):
         self.rng = rng
+        # calibration run: every page's data starts with a calibration data word (CDW); the word index counts up while the user
+        # fields stay the same and restarts at 0 when they change (checks_list.md, [E81])
+        self.calib = calib
+        self.cdw_user = None
+        self.cdw_index = 0
         self.link = link_id
         self.layer = layer
         self.stave = stave
@@ -92,6 +97,18 @@ class Link:
         cur = [itsgen.ihw(self.lanes_mask)]
         bc = bc0
         first = True
+
+        def with_cdw(page, words):
+            """the data words that go on `page`, led by a CDW when they are the page's first data words (calibration runs)"""
+            if not self.calib or not words or any(w[9] not in (0xE0, 0xE8, 0xF0) for w in page):
+                return words
+            if self.cdw_user is None:
+                self.cdw_user, self.cdw_index = self.rng.getrandbits(48), self.rng.randrange(1 << 24)
+            elif self.rng.random() < 0.25:
+                self.cdw_user, self.cdw_index = (self.cdw_user + 1 + self.rng.getrandbits(47)) & ((1 << 48) - 1), 0
+            else:
+                self.cdw_index = (self.cdw_index + 1) & 0xFFFFFF
+            return [itsgen.cdw(self.cdw_index, self.cdw_user)] + words
         for s in range(nslots):
             internal = 1
             ttype = (trig_rdh & 0xFFF) if first else rng.choice([0x010, 0x001 | 0x010, 0x010])
@@ -106,15 +123,15 @@ class Link:
                     cuts = sorted(rng.sample(range(1, len(data)), ncuts))
                     prev = 0
                     for k in cuts:
-                        cur += data[prev:k]
+                        cur += with_cdw(cur, data[prev:k])
                         cur.append(itsgen.tdt(packet_done=0))
                         pages.append(cur)
                         cur = [itsgen.ihw(self.lanes_mask),
                                itsgen.tdh(trigger_type=ttype, internal=internal, no_data=0, continuation=1, bc=bc, orbit=self.orbit)]
                         prev = k
-                    cur += data[prev:]
+                    cur += with_cdw(cur, data[prev:])
                 else:
-                    cur += data
+                    cur += with_cdw(cur, data)
                 cur.append(itsgen.tdt(packet_done=1))
             first = False
             bc += rng.randrange(1, 40)
@@ -142,7 +159,7 @@ def ob_lane(idb):
     return 21 + idb % 0x58
 
 
-def conforming(rng, nlinks=None, nhbf=None, stave_level=False, fmt=None, version=7):
+def conforming(rng, nlinks=None, nhbf=None, stave_level=False, fmt=None, version=7, calib=False):
     """-> (packets [(rdh, payload)] merged in a random interleaving, per-link lists)"""
     nlinks = nlinks or rng.choice([1, 1, 2, 3])
     fmt = fmt if fmt is not None else rng.choice([0, 2])
@@ -154,7 +171,7 @@ def conforming(rng, nlinks=None, nhbf=None, stave_level=False, fmt=None, version
             if (layer, stave) not in used and lid not in [l.link for l in links]:
                 used.add((layer, stave))
                 break
-        links.append(Link(rng, lid, layer, stave, fmt=fmt, version=version, stave_level=stave_level))
+        links.append(Link(rng, lid, layer, stave, fmt=fmt, version=version, stave_level=stave_level, calib=calib))
     per = []
     for l in links:
         pk = []
